@@ -347,3 +347,514 @@ Proof.
       * apply Nat.eqb_eq in E. congruence.
       * auto.
 Qed.
+
+(* ================= Part 2: the invariant of the specification under the node discipline ================= *)
+Record WF (s : sstate) : Prop := {
+  w_req : forall rd, is_some (nget rd (s_reader s)) = true ->
+          nget rd (s_srcs s) = None /\ written s rd = false /\ memb rd (s_lnk s) = false /\ memb rd (s_used s) = true;
+  w_src : forall d ss s0, nget d (s_srcs s) = Some ss -> In s0 ss -> exists rw, nget s0 (s_rows s) = Some rw /\ In d (pending rw);
+  w_src_nodup : forall d ss, nget d (s_srcs s) = Some ss -> NoDup ss;
+  w_src_used : forall d, is_some (nget d (s_srcs s)) = true -> memb d (s_used s) = true;
+  w_rows : forall rd, is_some (nget rd (s_rows s)) = true -> is_some (nget rd (s_reader s)) = true;
+  w_lnk : forall d, memb d (s_lnk s) = true -> written s d = false /\ memb d (s_used s) = true;
+  w_wr : forall d, written s d = true -> memb d (s_used s) = true;
+  w_writes : forall w d, In d (lst (nget w (s_writes s))) -> written s d = true;
+  w_writes_nodup : forall w, NoDup (lst (nget w (s_writes s)));
+  w_writes_disj : forall w1 w2 d, w1 <> w2 -> In d (lst (nget w1 (s_writes s))) -> ~ In d (lst (nget w2 (s_writes s)));
+  w_reads : forall r rd, In rd (lst (nget r (s_reads s))) -> nget rd (s_reader s) = Some r;
+  w_reads_nodup : forall r, NoDup (lst (nget r (s_reads s)))
+}.
+
+Lemma WF_init : WF s_init.
+Proof.
+  split; cbn; try discriminate; try (intros; contradiction); try constructor.
+Qed.
+
+(* the reader branch keeps the invariant *)
+Lemma wf_flush s r : WF s -> WF (s_flush_reader s r).
+Proof.
+  intros W. unfold s_flush_reader. destruct (s_flush s r (lst (nget r (s_reads s)))) as [s1 rest] eqn:F.
+  destruct (s_flush_spec _ _ _ _ _ F) as [done [E [H1 [H2 [H3 [F1 [F2 [F3 [F4 [F5 [F6 F7]]]]]]]]]]].
+  destruct W as [W1 W2 W3 W4 W5 W6 W7 W8 W9 W10 W11 W12].
+  assert (Rd : forall k, In k done -> nget k (s_reader s) = Some r).
+  { intros k Ik. apply W11. rewrite E. apply in_or_app. left. exact Ik. }
+  assert (Qn : forall r', nget r' (match rest with [] => ndel r (s_reads s1) | _ => nset r rest (s_reads s1) end) =
+                          if Nat.eqb r' r then (match rest with [] => None | _ => Some rest end) else nget r' (s_reads s)).
+  { intros r'. rewrite F1. destruct rest; [rewrite nget_ndel|rewrite nget_nset]; destruct (Nat.eqb r' r); reflexivity. }
+  split; unfold written in *; proj; try rewrite F2; try rewrite F3; try rewrite F4; try rewrite F5; try rewrite F6; auto.
+  - intros rd. rewrite H1. destruct (memb rd done); [discriminate|apply W1].
+  - intros d ss s0 Es I0. destruct (W2 d ss s0 Es I0) as [rw [R P]]. exists rw. split; [|exact P].
+    rewrite H2. destruct (memb s0 done) eqn:M; [|exact R]. exfalso. apply memb_In in M.
+    destruct (H3 s0 M) as [rw' [R' C']]. rewrite R in R'. injection R' as <-. rewrite (pending_incomplete d rw P) in C'. discriminate.
+  - intros rd. rewrite H1, H2. destruct (memb rd done); [discriminate|apply W5].
+  - intros r' rd. rewrite Qn, H1. destruct (Nat.eqb_spec r' r) as [Er|Er].
+    + subst r'. intros I. assert (Ir : In rd rest) by (destruct rest; [destruct I|exact I]).
+      destruct (memb rd done) eqn:M.
+      * exfalso. apply memb_In in M. specialize (W12 r). rewrite E in W12. exact (NoDup_app_disjoint _ _ _ W12 M Ir).
+      * apply W11. rewrite E. apply in_or_app. right. exact Ir.
+    + intros I. destruct (memb rd done) eqn:M; [|apply W11; exact I]. exfalso. apply memb_In in M.
+      pose proof (W11 r' rd I) as A1. specialize (Rd rd M). congruence.
+  - intros r'. rewrite Qn. destruct (Nat.eqb_spec r' r) as [Er|Er]; [|apply W12].
+    specialize (W12 r). rewrite E in W12. apply NoDup_app_r in W12. destruct rest; [constructor|exact W12].
+Qed.
+
+(* a row gets the answer of [d], which has no source list any more *)
+Lemma wf_fill s d j s0 rw :
+  WF s -> nget d (s_srcs s) = None -> nget s0 (s_rows s) = Some rw ->
+  WF (su_rows s (nset s0 (fill_row d j rw) (s_rows s))).
+Proof.
+  intros W Nd R. destruct W as [W1 W2 W3 W4 W5 W6 W7 W8 W9 W10 W11 W12]. split; unfold written in *; proj; auto.
+  - intros d' ss s1 Es I1. destruct (W2 d' ss s1 Es I1) as [rw1 [R1 P1]]. rewrite nget_nset.
+    destruct (Nat.eqb_spec s1 s0) as [E|E]; [|exists rw1; auto].
+    subst s1. rewrite R in R1. injection R1 as <-. exists (fill_row d j rw). split; [reflexivity|].
+    apply pending_fill_other; [|exact P1]. intros E. subst d'. congruence.
+  - intros rd. rewrite nget_nset. destruct (Nat.eqb_spec rd s0) as [E|E]; [|apply W5].
+    intros _. subst rd. apply W5. rewrite R. reflexivity.
+Qed.
+
+Lemma wf_settle_src s d j s0 : WF s -> nget d (s_srcs s) = None -> WF (s_settle_src d j s s0) /\ s_srcs (s_settle_src d j s s0) = s_srcs s.
+Proof.
+  intros W Nd. unfold s_settle_src. destruct (nget s0 (s_rows s)) as [rw|] eqn:R; [|auto].
+  pose proof (wf_fill s d j s0 rw W Nd R) as W'.
+  destruct (complete (fill_row d j rw)); [|auto]. proj.
+  destruct (nget s0 (s_reader s)) as [r|]; [|auto]. split; [apply wf_flush; exact W'|].
+  unfold s_flush_reader. destruct (s_flush _ r _) as [s1 rest] eqn:F.
+  destruct (s_flush_spec _ _ _ _ _ F) as [done [E [H1 [H2 [H3 [F1 [F2 F']]]]]]]. proj. exact F2.
+Qed.
+
+Lemma wf_settle_fold d j : forall ss s, WF s -> nget d (s_srcs s) = None -> WF (fold_left (s_settle_src d j) ss s).
+Proof.
+  induction ss as [|s0 ss IH]; intros s W Nd; cbn [fold_left]; [exact W|].
+  destruct (wf_settle_src s d j s0 W Nd) as [W' E]. apply IH; [exact W'|rewrite E; exact Nd].
+Qed.
+
+Lemma wf_del_srcs s d : WF s -> WF (su_srcs s (ndel d (s_srcs s))).
+Proof.
+  intros W. destruct W as [W1 W2 W3 W4 W5 W6 W7 W8 W9 W10 W11 W12]. split; unfold written in *; proj; auto.
+  - intros rd H. destruct (W1 rd H) as [A B]. split; [|exact B]. rewrite nget_ndel. destruct (Nat.eqb rd d); [reflexivity|exact A].
+  - intros d' ss s0. rewrite nget_ndel. destruct (Nat.eqb d' d); [discriminate|apply W2].
+  - intros d' ss. rewrite nget_ndel. destruct (Nat.eqb d' d); [discriminate|apply W3].
+  - intros d'. rewrite nget_ndel. destruct (Nat.eqb d' d); [discriminate|apply W4].
+Qed.
+
+Lemma wf_settle s d j : WF s -> WF (s_settle s d j).
+Proof.
+  intros W. unfold s_settle. destruct (nget d (s_srcs s)) as [ss|]; [|exact W].
+  apply wf_settle_fold; [apply wf_del_srcs; exact W|]. proj. rewrite nget_ndel, Nat.eqb_refl. reflexivity.
+Qed.
+
+(* the invariant gives the source loop what it relies on *)
+Lemma wf_good s d : WF s -> nget d (s_reader s) = None ->
+  Good d (su_srcs s (ndel d (s_srcs s))) (lst (nget d (s_srcs s))).
+Proof.
+  intros W Rd. destruct W as [W1 W2 W3 W4 W5 W6 W7 W8 W9 W10 W11 W12]. split; unfold written in *; proj; auto.
+  - destruct (nget d (s_srcs s)) as [ss|] eqn:E; cbn [lst]; [apply (W3 d ss E)|constructor].
+  - intros s0 I0. destruct (nget d (s_srcs s)) as [ss|] eqn:E; cbn [lst] in I0; [|destruct I0].
+    destruct (W2 d ss s0 E I0) as [rw [R P]]. split; [|exists rw; auto].
+    intros E0. subst s0. assert (H : is_some (nget d (s_reader s)) = true) by (apply W5; rewrite R; reflexivity).
+    rewrite Rd in H. discriminate.
+  - intros rd H. destruct (W1 rd H) as [A [B _]]. split; [|split; [exact B|]].
+    + rewrite nget_ndel. destruct (Nat.eqb rd d); [reflexivity|exact A].
+    + intros E. subst rd. rewrite Rd in H. discriminate.
+Qed.
+
+(* ---- every allowed call keeps the invariant ---- *)
+Lemma memb_cons x y l : memb x (y :: l) = Nat.eqb x y || memb x l.
+Proof. reflexivity. Qed.
+Lemma memb_filter_ne x p l : memb x (filter (fun y => negb (Nat.eqb y p)) l) = negb (Nat.eqb x p) && memb x l.
+Proof.
+  induction l as [|y l IH]; cbn [filter memb existsb]; [rewrite andb_false_r; reflexivity|].
+  destruct (Nat.eqb_spec y p) as [E|E]; cbn [negb].
+  - subst y. fold (memb x l). fold (memb x (filter (fun y => negb (Nat.eqb y p)) l)). rewrite IH.
+    destruct (Nat.eqb_spec x p); cbn; [reflexivity|]. reflexivity.
+  - cbn [existsb]. fold (memb x l). fold (memb x (filter (fun y => negb (Nat.eqb y p)) l)). rewrite IH.
+    destruct (Nat.eqb_spec x y) as [E2|E2]; cbn; [|reflexivity]. subst x. destruct (Nat.eqb_spec y p); [contradiction|reflexivity].
+Qed.
+Lemma is_some_true {A} (o : option A) : is_some o = true <-> exists x, o = Some x.
+Proof. destruct o; cbn; split; intros H; try discriminate; eauto. destruct H; discriminate. Qed.
+Lemma pending_app a b : pending (a ++ b) = pending a ++ pending b.
+Proof. unfold pending. rewrite filter_app, map_app. reflexivity. Qed.
+
+Lemma NoDup_snoc {A} (l : list A) x : NoDup l -> ~ In x l -> NoDup (l ++ [x]).
+Proof.
+  induction l as [|y l IH]; cbn; intros ND N; [constructor; [intros []|constructor]|].
+  inversion ND as [|? ? Ny ND']; subst. constructor.
+  - intros I. apply in_app_or in I. destruct I as [I|[I|[]]]; [contradiction|subst; apply N; left; reflexivity].
+  - apply IH; [exact ND'|]. intros I. apply N. right. exact I.
+Qed.
+
+Lemma wf_read s r p pl : WF s -> memb p (s_used s) = false -> WF (s_step s (TRead r p pl)).
+Proof.
+  intros W Np. pose proof W as [W1 W2 W3 W4 W5 W6 W7 W8 W9 W10 W11 W12]. cbn [s_step].
+  assert (Rp : nget p (s_reader s) = None).
+  { destruct (nget p (s_reader s)) eqn:E; [|reflexivity]. destruct (W1 p) as [_ [_ [_ U]]]; [rewrite E; reflexivity|congruence]. }
+  split; unfold written in *; proj.
+  - intros rd. rewrite nget_nset, memb_cons. destruct (Nat.eqb_spec rd p) as [E|E].
+    + subst rd. intros _. split; [|split; [|split; [|reflexivity]]].
+      * destruct (nget p (s_srcs s)) eqn:E; [|reflexivity]. rewrite W4 in Np; [discriminate|rewrite E; reflexivity].
+      * destruct (memb p (s_wr s)) eqn:E; [|reflexivity]. rewrite (W7 p E) in Np. discriminate.
+      * destruct (memb p (s_lnk s)) eqn:E; [|reflexivity]. destruct (W6 p E) as [_ U]. congruence.
+    + intros H. destruct (W1 rd H) as [A [B [C D]]]. rewrite D. auto.
+  - exact W2.
+  - exact W3.
+  - intros d H. rewrite memb_cons, (W4 d H). apply orb_true_r.
+  - intros rd H. rewrite nget_nset. destruct (Nat.eqb rd p); [reflexivity|apply W5; exact H].
+  - intros d H. destruct (W6 d H) as [A B]. rewrite memb_cons, B. split; [exact A|apply orb_true_r].
+  - intros d H. rewrite memb_cons, (W7 d H). apply orb_true_r.
+  - exact W8.
+  - exact W9.
+  - exact W10.
+  - intros r' rd. rewrite !nget_nset. destruct (Nat.eqb_spec r' r) as [Er|Er]; cbn [lst].
+    + subst r'. intros I. apply in_app_or in I. destruct I as [I|[I|[]]].
+      * pose proof (W11 r rd I) as A. destruct (Nat.eqb_spec rd p); [subst rd; congruence|exact A].
+      * subst rd. rewrite Nat.eqb_refl. reflexivity.
+    + intros I. pose proof (W11 r' rd I) as A. destruct (Nat.eqb_spec rd p); [subst rd; congruence|exact A].
+  - intros r'. rewrite nget_nset. destruct (Nat.eqb_spec r' r) as [Er|Er]; cbn [lst]; [|apply W12].
+    subst r'. apply NoDup_snoc; [apply W12|]. intros I. rewrite (W11 r p I) in Rp. discriminate.
+Qed.
+
+Lemma wf_link s src tgt pl : WF s -> allowed s (TLink src tgt pl) = true -> WF (s_step s (TLink src tgt pl)).
+Proof.
+  intros W A. pose proof W as [W1 W2 W3 W4 W5 W6 W7 W8 W9 W10 W11 W12]. cbn [allowed] in A.
+  apply andb_prop in A. destruct A as [A A5]. apply andb_prop in A. destruct A as [A A4].
+  apply andb_prop in A. destruct A as [A A3]. apply andb_prop in A. destruct A as [A1 A2].
+  apply negb_true_iff, Nat.eqb_neq in A1. apply negb_true_iff, memb_nIn in A5.
+  assert (Tr : nget tgt (s_reader s) = None).
+  { destruct (nget tgt (s_reader s)) eqn:E; [|reflexivity]. destruct (W1 tgt) as [_ [_ [L U]]]; [rewrite E; reflexivity|].
+    apply orb_prop in A4. destruct A4 as [A4|A4]; [rewrite U in A4; discriminate|congruence]. }
+  assert (Tw : memb tgt (s_wr s) = false).
+  { apply orb_prop in A4. destruct A4 as [A4|A4].
+    - destruct (memb tgt (s_wr s)) eqn:E; [|reflexivity]. rewrite (W7 tgt E) in A4. discriminate.
+    - apply (W6 tgt A4). }
+  set (lnk' := if existsb (Nat.eqb tgt) (s_lnk s) then s_lnk s else tgt :: s_lnk s).
+  assert (Lk : forall x, memb x lnk' = Nat.eqb x tgt || memb x (s_lnk s)).
+  { intros x. unfold lnk'. fold (memb tgt (s_lnk s)). destruct (memb tgt (s_lnk s)) eqn:E; [|reflexivity].
+    destruct (Nat.eqb_spec x tgt); [subst; rewrite E; reflexivity|reflexivity]. }
+  cbn [s_step]. split; unfold written in *; proj; fold lnk'.
+  - intros rd H. destruct (W1 rd H) as [B1 [B2 [B3 B4]]].
+    assert (Nt : rd <> tgt) by (intros E; subst rd; rewrite Tr in H; discriminate).
+    rewrite nget_nset, Lk, memb_cons. destruct (Nat.eqb_spec rd tgt); [contradiction|]. rewrite B4. auto.
+  - intros d ss s0. rewrite !nget_nset. destruct (Nat.eqb_spec d tgt) as [Ed|Ed].
+    + subst d. intros Es I0. injection Es as <-. apply in_app_or in I0.
+      destruct (Nat.eqb_spec s0 src) as [E0|E0].
+      * subst s0. eexists. split; [reflexivity|]. rewrite pending_app. apply in_or_app. right. left. reflexivity.
+      * destruct I0 as [I0|[I0|[]]]; [|congruence].
+        destruct (nget tgt (s_srcs s)) as [ss|] eqn:Et; [|destruct I0]. apply (W2 tgt ss s0 Et I0).
+    + intros Es I0. destruct (W2 d ss s0 Es I0) as [rw [R P]].
+      destruct (Nat.eqb_spec s0 src) as [E0|E0]; [|exists rw; auto].
+      subst s0. rewrite R. cbn [lst]. eexists. split; [reflexivity|]. rewrite pending_app. apply in_or_app. left. exact P.
+  - intros d ss. rewrite nget_nset. destruct (Nat.eqb_spec d tgt) as [Ed|Ed]; [|apply W3].
+    intros Es. injection Es as <-. apply NoDup_snoc; [|exact A5].
+    destruct (nget tgt (s_srcs s)) as [ss|] eqn:Et; [apply (W3 tgt ss Et)|constructor].
+  - intros d. rewrite nget_nset, memb_cons. destruct (Nat.eqb_spec d tgt); [reflexivity|]. intros H. rewrite (W4 d H). apply orb_true_r.
+  - intros rd. rewrite nget_nset. destruct (Nat.eqb_spec rd src) as [E|E]; [subst rd; intros _; exact A2|apply W5].
+  - intros d. rewrite Lk, memb_cons. destruct (Nat.eqb_spec d tgt) as [E|E]; cbn [orb].
+    + subst d. intros _. split; [exact Tw|reflexivity].
+    + intros H. destruct (W6 d H) as [B1 B2]. rewrite B2. auto.
+  - intros d H. rewrite memb_cons, (W7 d H). apply orb_true_r.
+  - exact W8.
+  - exact W9.
+  - exact W10.
+  - exact W11.
+  - exact W12.
+Qed.
+
+Lemma wf_write_acc s w p : WF s -> memb p (s_lnk s) = true -> WF (s_step s (TWrite (Some w) p true)).
+Proof.
+  intros W Lp. pose proof W as [W1 W2 W3 W4 W5 W6 W7 W8 W9 W10 W11 W12]. destruct (W6 p Lp) as [Wp Up].
+  assert (Nq : forall w', ~ In p (lst (nget w' (s_writes s)))).
+  { intros w' I. unfold written in *. rewrite (W8 w' p I) in Wp. discriminate. }
+  cbn [s_step]. split; unfold written in *; proj.
+  - intros rd H. destruct (W1 rd H) as [B1 [B2 [B3 B4]]]. rewrite memb_cons, memb_filter_ne, B2, B3.
+    destruct (Nat.eqb_spec rd p); [subst rd; congruence|]. auto.
+  - exact W2.
+  - exact W3.
+  - exact W4.
+  - exact W5.
+  - intros d. rewrite memb_filter_ne, memb_cons. destruct (Nat.eqb_spec d p); cbn; [discriminate|]. apply W6.
+  - intros d. rewrite memb_cons. destruct (Nat.eqb_spec d p); cbn; [subst d; intros _; exact Up|apply W7].
+  - intros w' d. rewrite nget_nset, memb_cons. destruct (Nat.eqb_spec w' w) as [E|E]; cbn [lst].
+    + subst w'. intros I. apply in_app_or in I. destruct I as [I|[I|[]]].
+      * rewrite (W8 w d I). apply orb_true_r.
+      * subst d. rewrite Nat.eqb_refl. reflexivity.
+    + intros I. rewrite (W8 w' d I). apply orb_true_r.
+  - intros w'. rewrite nget_nset. destruct (Nat.eqb_spec w' w) as [E|E]; cbn [lst]; [|apply W9].
+    subst w'. apply NoDup_snoc; [apply W9|apply Nq].
+  - intros w1 w2 d Nw. rewrite !nget_nset.
+    destruct (Nat.eqb_spec w1 w) as [E1|E1]; destruct (Nat.eqb_spec w2 w) as [E2|E2]; cbn [lst]; try congruence.
+    + subst w1. intros I1 I2. apply in_app_or in I1. destruct I1 as [I1|[I1|[]]].
+      * exact (W10 w w2 d Nw I1 I2).
+      * subst d. exact (Nq w2 I2).
+    + subst w2. intros I1 I2. apply in_app_or in I2. destruct I2 as [I2|[I2|[]]].
+      * exact (W10 w1 w d Nw I1 I2).
+      * subst d. exact (Nq w1 I1).
+    + apply W10. exact Nw.
+  - exact W11.
+  - exact W12.
+Qed.
+
+Lemma wf_echo s w p a : WF s -> allowed s (TWrite w p a) = true ->
+  (match w, a with Some _, true => False | _, _ => True end) ->
+  WF (match nget p (s_reader s) with
+      | Some r => s_flush_reader (su_rows s (nset p [(p, Some (echo s p))] (s_rows s))) r
+      | None => s_settle (su_lnk s (filter (fun x => negb (Nat.eqb x p)) (s_lnk s))) p (join [echo s p])
+      end).
+Proof.
+  intros W A Hw. pose proof W as [W1 W2 W3 W4 W5 W6 W7 W8 W9 W10 W11 W12].
+  assert (A' : memb p (s_lnk s) || (is_some (nget p (s_reader s)) && negb (is_some (nget p (s_rows s)))) = true).
+  { destruct w as [w|]; [destruct a; [contradiction|]|]; exact A. }
+  destruct (nget p (s_reader s)) as [r|] eqn:Er.
+  - assert (H : is_some (nget p (s_reader s)) = true) by (rewrite Er; reflexivity).
+    destruct (W1 p H) as [B1 [B2 [B3 B4]]]. rewrite B3 in A'. cbn [orb is_some andb] in A'.
+    apply negb_true_iff in A'. assert (Rp : nget p (s_rows s) = None) by (destruct (nget p (s_rows s)); [discriminate|reflexivity]).
+    apply wf_flush. split; unfold written in *; proj; auto.
+    + intros d ss s0 Es I0. destruct (W2 d ss s0 Es I0) as [rw [R P]]. rewrite nget_nset.
+      destruct (Nat.eqb_spec s0 p); [subst s0; congruence|]. exists rw. auto.
+    + intros rd. rewrite nget_nset. destruct (Nat.eqb_spec rd p); [subst rd; intros _; exact H|apply W5].
+  - cbn [is_some andb] in A'. rewrite orb_false_r in A'. apply wf_settle.
+    split; unfold written in *; proj; auto.
+    + intros rd H. destruct (W1 rd H) as [B1 [B2 [B3 B4]]]. rewrite memb_filter_ne, B3, andb_false_r. auto.
+    + intros d. rewrite memb_filter_ne. intros H. apply andb_prop in H. destruct H as [_ H]. apply W6. exact H.
+Qed.
+
+Lemma wf_pop s w d rest : WF s -> lst (nget w (s_writes s)) = d :: rest ->
+  WF (su_wr (su_writes s (match rest with [] => ndel w (s_writes s) | _ => nset w rest (s_writes s) end))
+            (filter (fun x => negb (Nat.eqb x d)) (s_wr s))).
+Proof.
+  intros W E. pose proof W as [W1 W2 W3 W4 W5 W6 W7 W8 W9 W10 W11 W12].
+  assert (Qn : forall w', lst (nget w' (match rest with [] => ndel w (s_writes s) | _ => nset w rest (s_writes s) end)) =
+                          if Nat.eqb w' w then rest else lst (nget w' (s_writes s))).
+  { intros w'. destruct rest; [rewrite nget_ndel|rewrite nget_nset]; destruct (Nat.eqb w' w); reflexivity. }
+  pose proof (W9 w) as NDw. rewrite E in NDw. inversion NDw as [|? ? Nd NDr]; subst.
+  split; unfold written in *; proj; auto.
+  - intros rd H. destruct (W1 rd H) as [B1 [B2 [B3 B4]]]. rewrite memb_filter_ne, B2, andb_false_r. auto.
+  - intros x H. destruct (W6 x H) as [B1 B2]. rewrite memb_filter_ne, B1, andb_false_r. auto.
+  - intros x. rewrite memb_filter_ne. intros H. apply andb_prop in H. destruct H as [_ H]. apply W7. exact H.
+  - intros w' x. rewrite Qn, memb_filter_ne. destruct (Nat.eqb_spec w' w) as [Ew|Ew].
+    + subst w'. intros I. rewrite (W8 w x); [|rewrite E; right; exact I].
+      destruct (Nat.eqb_spec x d); [subst x; contradiction|reflexivity].
+    + intros I. rewrite (W8 w' x I). destruct (Nat.eqb_spec x d) as [Ex|Ex]; [|reflexivity].
+      subst x. exfalso. apply (W10 w' w d Ew I). rewrite E. left. reflexivity.
+  - intros w'. rewrite Qn. destruct (Nat.eqb_spec w' w); [exact NDr|apply W9].
+  - intros w1 w2 x Nw. rewrite !Qn. destruct (Nat.eqb_spec w1 w) as [E1|E1]; destruct (Nat.eqb_spec w2 w) as [E2|E2]; try congruence.
+    + subst w1. intros I1. apply (W10 w w2 x Nw). rewrite E. right. exact I1.
+    + subst w2. intros I1 I2. apply (W10 w1 w x Nw I1). rewrite E. right. exact I2.
+    + apply W10. exact Nw.
+Qed.
+
+Theorem step_wf s op : WF s -> allowed s op = true -> WF (s_step s op).
+Proof.
+  intros W A. destruct op as [r p pl|src tgt pl|w p a|w back].
+  - apply wf_read; [exact W|]. cbn in A. apply negb_true_iff in A. exact A.
+  - apply wf_link; assumption.
+  - destruct w as [w|]; [destruct a|].
+    + apply wf_write_acc; [exact W|exact A].
+    + cbn [s_step]. apply (wf_echo s (Some w) p false W A I).
+    + cbn [s_step]. apply (wf_echo s None p a W A I).
+  - cbn [s_step]. destruct (lst (nget w (s_writes s))) as [|d rest] eqn:E; [exact W|].
+    apply wf_settle. proj. apply wf_pop; assumption.
+Qed.
+
+(* ================= Part 3: every allowed call is simulated ================= *)
+Lemma sim_read t s r p pl : Sim t s -> Sim (t_step t (TRead r p pl)) (s_step s (TRead r p pl)).
+Proof.
+  intros Sm. unfold t_step. rewrite (sim_crash _ _ _ Sm). cbn [s_step].
+  destruct Sm as [S1 S2 S3 S4 S5 S6 S7 S8 S9]. split; unfold std_receives, std_targets, written in *; proj; auto;
+    rewrite ?S1, ?S2, ?S4; reflexivity.
+Qed.
+
+Lemma sim_link t s src tgt pl : Sim t s -> WF s -> allowed s (TLink src tgt pl) = true ->
+  Sim (t_step t (TLink src tgt pl)) (s_step s (TLink src tgt pl)).
+Proof.
+  intros Sm W A. cbn [allowed] in A.
+  apply andb_prop in A. destruct A as [A A5]. apply andb_prop in A. destruct A as [A A4].
+  apply andb_prop in A. destruct A as [A A3]. apply andb_prop in A. destruct A as [A1 A2].
+  unfold t_step. rewrite (sim_crash _ _ _ Sm). apply negb_true_iff in A1. rewrite A1. cbn [s_step].
+  destruct (w_req _ W src A2) as [_ [Ws _]].
+  pose proof Sm as [S1 S2 S3 S4 S5 S6 S7 S8 S9]. split; unfold std_receives, std_targets, written in *; proj; auto;
+    try (rewrite ?S7, ?S4; reflexivity).
+  - intros p. rewrite !nget_nset. destruct (Nat.eqb_spec p src) as [E|E]; [|apply S8].
+    subst p. rewrite S8. destruct (nget src (s_rows s)) as [rw|]; cbn [lst].
+    + rewrite map_app. reflexivity.
+    + rewrite Ws. reflexivity.
+  - intros p. rewrite !nget_nset. destruct (Nat.eqb_spec p src) as [E|E]; [|apply S9].
+    subst p. rewrite S9. destruct (nget src (s_rows s)) as [rw|]; cbn [lst].
+    + rewrite pending_app. cbn. destruct (pending rw); reflexivity.
+    + reflexivity.
+Qed.
+
+Lemma sim_write_acc t s w p : Sim t s -> WF s -> memb p (s_lnk s) = true ->
+  Sim (t_step t (TWrite (Some w) p true)) (s_step s (TWrite (Some w) p true)).
+Proof.
+  intros Sm W Lp. unfold t_step. rewrite (sim_crash _ _ _ Sm). cbn [s_step].
+  destruct (w_lnk _ W p Lp) as [Wp _].
+  assert (Rp : nget p (s_rows s) = None).
+  { destruct (nget p (s_rows s)) eqn:E; [|reflexivity]. exfalso.
+    assert (H : is_some (nget p (s_reader s)) = true) by (apply (w_rows _ W); rewrite E; reflexivity).
+    destruct (w_req _ W p H) as [_ [_ [L _]]]. congruence. }
+  pose proof Sm as [S1 S2 S3 S4 S5 S6 S7 S8 S9]. split; unfold std_receives, std_targets, written in *; proj; auto;
+    try (rewrite S3; reflexivity).
+  - intros q. rewrite nget_nset, memb_cons. destruct (Nat.eqb_spec q p) as [E|E].
+    + subst q. rewrite S8, Rp, Wp. reflexivity.
+    + apply S8.
+Qed.
+
+Lemma fuel0_eq : fuel0 = S (S 6).
+Proof. reflexivity. Qed.
+
+Lemma sim_echo t s w p a : Sim t s -> WF s -> allowed s (TWrite w p a) = true ->
+  (match w, a with Some _, true => False | _, _ => True end) ->
+  Sim (resolve fuel0 (t_receive t p (match nget p (t_pay t) with Some pl => Pk pl | None => PNone end)) p)
+      (match nget p (s_reader s) with
+       | Some r => s_flush_reader (su_rows s (nset p [(p, Some (echo s p))] (s_rows s))) r
+       | None => s_settle (su_lnk s (filter (fun x => negb (Nat.eqb x p)) (s_lnk s))) p (join [echo s p])
+       end).
+Proof.
+  intros Sm W A Hw.
+  assert (A' : memb p (s_lnk s) || (is_some (nget p (s_reader s)) && negb (is_some (nget p (s_rows s)))) = true).
+  { destruct w as [w|]; [destruct a; [contradiction|]|]; exact A. }
+  rewrite (sim_pay _ _ _ Sm). fold (echo s p). set (e := echo s p). rewrite fuel0_eq.
+  destruct (nget p (s_reader s)) as [r|] eqn:Er.
+  - assert (H : is_some (nget p (s_reader s)) = true) by (rewrite Er; reflexivity).
+    destruct (w_req _ W p H) as [B1 [B2 [B3 B4]]]. rewrite B3 in A'. cbn [orb is_some andb] in A'.
+    apply negb_true_iff in A'. assert (Rp : nget p (s_rows s) = None) by (destruct (nget p (s_rows s)); [discriminate|reflexivity]).
+    set (s' := su_rows s (nset p [(p, Some e)] (s_rows s))).
+    assert (S' : Sim (t_receive t p e) s').
+    { unfold t_receive. pose proof Sm as [S1 S2 S3 S4 S5 S6 S7 S8 S9]. unfold s'.
+      split; unfold std_receives, std_targets, written in *; proj; auto.
+      - intros q. rewrite !nget_nset. destruct (Nat.eqb_spec q p) as [E|E]; [|apply S8].
+        subst q. rewrite S8, Rp, B2. reflexivity.
+      - intros q. rewrite nget_nset. destruct (Nat.eqb_spec q p) as [E|E]; [|apply S9].
+        subst q. rewrite S9, Rp. reflexivity. }
+    pose proof (resolve_request None (S 6) (t_receive t p e) s' p [(p, Some e)] S' I) as Q.
+    assert (R' : nget p (s_rows s') = Some [(p, Some e)]) by (unfold s'; proj; rewrite nget_nset, Nat.eqb_refl; reflexivity).
+    assert (E1 : s_reader s' = s_reader s) by reflexivity. assert (E2 : s_srcs s' = s_srcs s) by reflexivity.
+    assert (E3 : s_reads s' = s_reads s) by reflexivity. assert (E4 : s_wr s' = s_wr s) by reflexivity.
+    specialize (Q R'). rewrite E2 in Q. specialize (Q B1). rewrite E1, Er, E3 in Q.
+    cbn [complete map snd has_nil existsb negb orb] in Q. apply Q; [|reflexivity].
+    intros r0 Er0 rd Ird. injection Er0 as <-. split; [|exact I].
+    assert (Hrd : is_some (nget rd (s_reader s)) = true) by (rewrite (w_reads _ W r rd Ird); reflexivity).
+    unfold written. rewrite E4. apply (w_req _ W rd Hrd).
+  - cbn [is_some andb] in A'. rewrite orb_false_r in A'.
+    destruct (w_lnk _ W p A') as [Wp _].
+    assert (Rp : nget p (s_rows s) = None).
+    { destruct (nget p (s_rows s)) eqn:E; [|reflexivity]. exfalso.
+      assert (H : is_some (nget p (s_reader s)) = true) by (apply (w_rows _ W); rewrite E; reflexivity).
+      rewrite Er in H. discriminate. }
+    set (s' := su_lnk s (filter (fun x => negb (Nat.eqb x p)) (s_lnk s))).
+    assert (S' : SimG (Some (p, [Some e])) (t_receive t p e) s').
+    { unfold t_receive. pose proof Sm as [S1 S2 S3 S4 S5 S6 S7 S8 S9]. unfold s'.
+      split; unfold std_receives, std_targets, written in *; proj; auto.
+      intros q. rewrite nget_nset. destruct (Nat.eqb_spec q p) as [E|E]; [|apply S8].
+      subst q. rewrite S8, Rp, Wp. reflexivity. }
+    assert (W' : WF s').
+    { pose proof W as [W1 W2 W3 W4 W5 W6 W7 W8 W9 W10 W11 W12]. unfold s'. split; unfold written in *; proj; auto.
+      - intros rd H. destruct (W1 rd H) as [B1 [B2 [B3 B4]]]. rewrite memb_filter_ne, B3, andb_false_r. auto.
+      - intros d. rewrite memb_filter_ne. intros H. apply andb_prop in H. destruct H as [_ H]. apply W6. exact H. }
+    pose proof (settle_sim 6 (t_receive t p e) s' p [Some e] S' eq_refl) as Q.
+    cbn [slots flat_map app] in Q. apply Q.
+    + unfold s', written. proj. exact Wp.
+    + apply wf_good; [exact W'|]. unfold s'. proj. exact Er.
+Qed.
+
+Lemma sim_receive t s w back : Sim t s -> WF s ->
+  Sim (t_step t (TReceive w back)) (s_step s (TReceive w back)).
+Proof.
+  intros Sm W. unfold t_step. rewrite (sim_crash _ _ _ Sm), (sim_writes _ _ _ Sm). cbn [s_step].
+  destruct (lst (nget w (s_writes s))) as [|d rest] eqn:E; [exact Sm|]. proj.
+  set (wr' := filter (fun x => negb (Nat.eqb x d)) (s_wr s)).
+  set (ws' := match rest with [] => ndel w (s_writes s) | _ => nset w rest (s_writes s) end).
+  set (s' := su_wr (su_writes s ws') wr').
+  assert (W' : WF s') by (apply wf_pop; assumption).
+  assert (Wd : written s d = true) by (apply (w_writes _ W w); rewrite E; left; reflexivity).
+  assert (Rd : nget d (s_reader s) = None).
+  { destruct (nget d (s_reader s)) eqn:Er; [|reflexivity]. exfalso.
+    destruct (w_req _ W d) as [_ [B _]]; [rewrite Er; reflexivity|congruence]. }
+  assert (Rw : nget d (s_rows s) = None).
+  { destruct (nget d (s_rows s)) eqn:Er; [|reflexivity]. exfalso.
+    assert (H : is_some (nget d (s_reader s)) = true) by (apply (w_rows _ W); rewrite Er; reflexivity).
+    rewrite Rd in H. discriminate. }
+  assert (Wd' : written s' d = false).
+  { unfold written, s', wr'. proj. rewrite memb_filter_ne, Nat.eqb_refl. reflexivity. }
+  set (t1 := upd_writes t ws').
+  assert (Rc : nget d (t_receives t1) = Some [None]).
+  { unfold t1. proj. rewrite (sim_receives _ _ _ Sm). unfold std_receives. rewrite Rw, Wd. reflexivity. }
+  assert (Base : forall rc t2, t_receives t2 = nset d rc (t_receives t1) ->
+                 t_reads t2 = t_reads t -> t_reader t2 = t_reader t -> t_writes t2 = ws' -> t_pay t2 = t_pay t ->
+                 t_out t2 = t_out t -> t_crash t2 = false -> t_sources t2 = t_sources t -> t_targets t2 = t_targets t ->
+                 SimG (Some (d, rc)) t2 s').
+  { intros rc t2 H1 H2 H3 H4 H5 H6 H7 H8 H9. pose proof Sm as [S1 S2 S3 S4 S5 S6 S7 S8 S9].
+    split; unfold std_receives, std_targets, written, s', wr' in *; proj; try congruence.
+    - intros q. rewrite H1, nget_nset. destruct (Nat.eqb_spec q d) as [Eq|Eq]; [reflexivity|].
+      unfold t1. proj. rewrite S8, memb_filter_ne. destruct (Nat.eqb_spec q d); [contradiction|]. reflexivity.
+    - intros q. rewrite H9. apply S9. }
+  rewrite fuel0_eq.
+  assert (G : Good d (su_srcs s' (ndel d (s_srcs s'))) (lst (nget d (s_srcs s')))).
+  { apply wf_good; [exact W'|]. exact Rd. }
+  destruct back as [a|].
+  - assert (S2 : SimG (Some (d, [Some a])) (t_receive t1 d a) s').
+    { apply Base; unfold t_receive, t1; proj; try reflexivity; try apply (sim_crash _ _ _ Sm).
+      unfold t1 in Rc. proj. rewrite Rc. reflexivity. }
+    pose proof (settle_sim 6 _ _ d [Some a] S2 eq_refl Wd' G) as Q. cbn [slots flat_map app] in Q. exact Q.
+  - assert (S2 : SimG (Some (d, [])) (t_discard t1 d) s').
+    { unfold t_discard. rewrite Rc. cbn [has_nil existsb orb drop_first_nil].
+      apply Base; unfold t1; proj; try reflexivity; apply (sim_crash _ _ _ Sm). }
+    pose proof (settle_sim 6 _ _ d [] S2 eq_refl Wd' G) as Q. cbn [slots flat_map] in Q. exact Q.
+Qed.
+
+Theorem step_sim t s op : Sim t s -> WF s -> allowed s op = true -> Sim (t_step t op) (s_step s op).
+Proof.
+  intros Sm W A. destruct op as [r p pl|src tgt pl|w p a|w back].
+  - apply sim_read. exact Sm.
+  - apply sim_link; assumption.
+  - destruct w as [w|]; [destruct a|].
+    + apply sim_write_acc; assumption.
+    + unfold t_step. rewrite (sim_crash _ _ _ Sm). cbn [s_step]. apply (sim_echo t s (Some w) p false Sm W A I).
+    + unfold t_step. rewrite (sim_crash _ _ _ Sm). cbn [s_step]. apply (sim_echo t s None p a Sm W A I).
+  - apply sim_receive; assumption.
+Qed.
+
+Lemma Sim_init : Sim t_init s_init.
+Proof. split; cbn; try reflexivity; intros p; reflexivity. Qed.
+
+Lemma run_sim : forall ops t s, Sim t s -> WF s -> disciplined_from s ops = true ->
+  Sim (fold_left t_step ops t) (fold_left s_step ops s) /\ WF (fold_left s_step ops s).
+Proof.
+  induction ops as [|op ops IH]; intros t s Sm W D; cbn [fold_left]; [auto|].
+  cbn [disciplined_from] in D. apply andb_prop in D. destruct D as [A D].
+  apply IH; [apply step_sim|apply step_wf|]; assumption.
+Qed.
+
+(* For every disciplined sequence of tracer calls the tracer hands out exactly the specification's answers - the same
+   requests, to the same readers, with the same packets, in the same order - it holds the same pending requests and
+   writes, and it never indexes out of range. *)
+Theorem tracer_refines_spec ops : disciplined ops = true ->
+  t_out (t_run ops) = s_out (s_run ops) /\ t_reads (t_run ops) = s_reads (s_run ops) /\
+  t_writes (t_run ops) = s_writes (s_run ops) /\ t_crash (t_run ops) = false.
+Proof.
+  intros D. destruct (run_sim ops t_init s_init Sim_init WF_init D) as [Sm _].
+  unfold t_run, s_run. split; [apply (sim_out _ _ _ Sm)|]. split; [apply (sim_reads _ _ _ Sm)|].
+  split; [apply (sim_writes _ _ _ Sm)|apply (sim_crash _ _ _ Sm)].
+Qed.
+
+(* what the specification hands out: only complete rows, each answered with the join of its row *)
+Lemma s_flush_out r : forall l s s' rest, s_flush s r l = (s', rest) ->
+  exists done, l = done ++ rest /\
+    s_out s' = s_out s ++ map (fun rd => (r, rd, join (answers (lst (nget rd (s_rows s)))))) done /\
+    (forall rd, In rd done -> exists rw, nget rd (s_rows s) = Some rw /\ complete rw = true).
+Proof.
+  induction l as [|rd l IH]; intros s s' rest H; cbn [s_flush] in H.
+  - injection H as <- <-. exists []. cbn. rewrite app_nil_r. split; [reflexivity|]. split; [reflexivity|]. intros k [].
+  - destruct (nget rd (s_rows s)) as [rw|] eqn:R.
+    2:{ injection H as <- <-. exists []. cbn. rewrite app_nil_r. split; [reflexivity|]. split; [reflexivity|]. intros k []. }
+    destruct (complete rw) eqn:C.
+    2:{ injection H as <- <-. exists []. cbn. rewrite app_nil_r. split; [reflexivity|]. split; [reflexivity|]. intros k []. }
+    apply IH in H. destruct H as [done [E [O K]]]. proj.
+    assert (Ne : forall k, In k done -> k <> rd).
+    { intros k Ik Ek. subst k. destruct (K rd Ik) as [rw' [R' _]]. rewrite nget_ndel, Nat.eqb_refl in R'. discriminate. }
+    exists (rd :: done). split; [cbn; rewrite E; reflexivity|]. split.
+    + rewrite O. cbn [map]. rewrite R. cbn [lst]. rewrite <- app_assoc. cbn [app]. f_equal. f_equal.
+      apply map_ext_in. intros k Ik. rewrite nget_ndel. destruct (Nat.eqb_spec k rd) as [Ek|Ek]; [exfalso; exact (Ne k Ik Ek)|reflexivity].
+    + intros k [Ek|Ik]; [subst k; exists rw; auto|].
+      destruct (K k Ik) as [rw' [R' C']]. rewrite nget_ndel in R'. destruct (Nat.eqb k rd); [discriminate|]. exists rw'. auto.
+Qed.
